@@ -100,6 +100,7 @@ class C14(Property):
                 st["n"] = [st["n"][0]] * 3  # right-angle rotations of a non-cubic box leave the box
             st["via"] = rng.pick(["array", "array", "em", "mrc"])
             st["api"] = rng.pick(["angles", "rotation"])
+            st["reuse"] = st["via"] == "array" and rng.chance(0.4)
         elif op == "rot_blob":
             st["n"] = rng.pick([16, 20, 21, 24])
             st["ang"] = pose.random_rotation_angles(rng)
@@ -197,8 +198,16 @@ class C14(Property):
         gx, gy, gz = np.meshgrid(idx, idx, idx, indexing="ij")
         src = np.stack([gx.ravel(), gy.ravel(), gz.ravel()], axis=1)
 
+        content = vol.copy()
+        earlier = self.int_volume(step["seed"] + 1, tuple(step["n"]))
+
         def run():
             res = []
+            if step.get("reuse"):
+                # the caller's buffer held another map when it was rotated before, and was refilled in place since
+                vol[...] = earlier
+                cryomap.rotate(vol, rotation_angles=list(CUBE[step["seed"] % len(CUBE)]))
+                vol[...] = content
             for ang in CUBE:
                 if step["api"] == "angles":
                     res.append(cryomap.rotate(arg, rotation_angles=list(ang)))
@@ -228,6 +237,8 @@ class C14(Property):
                     tuple(ang), N, (src[ok][i] - c).tolist(), (dst[ok][i] - c).tolist(), float(want[i]), float(got[i]), int(bad.sum()), int(ok.sum())))
         world.stats["acks"] += 1
         world.probes["cube_rotations_checked"] += 24
+        if step.get("reuse"):
+            world.probes["buffer_refilled_in_place_between_calls"] += 1
         return targets
 
     def op_rot_blob(self, world, step):
